@@ -611,11 +611,11 @@ def streams(ctx):
                       note="comma lists in 6 positions: tuple iff a comma is present"))
 
     # 3. reference sweep (exploration; judged by oracle only)
-    nm, ni, ne = (3000, 800, 1500) if q else (40000, 12000, 20000)
+    nm, ni, ne = (3000, 800, 1500) if q else (100000, 25000, 50000)
     gm, tm = refsweep.generated(ctx, "sweep-m", nm, "m", {"depth": 3})
     gi, ti = refsweep.generated(ctx, "sweep-i", ni, "i", {"depth": 3})
     ge, te = refsweep.generated(ctx, "sweep-e", ne, "e", {"depth": 4})
-    gd, td = refsweep.generated(ctx, "sweep-deep", 150 if q else 3000, "m", {"depth": 5, "stmts": (1, 3)})
+    gd, td = refsweep.generated(ctx, "sweep-deep", 150 if q else 8000, "m", {"depth": 5, "stmts": (1, 3)})
     ctx.extra["generator"] = {"module": {"kept": len(gm), "generated": tm}, "interactive": {"kept": len(gi), "generated": ti},
                               "expression": {"kept": len(ge), "generated": te}, "deep": {"kept": len(gd), "generated": td},
                               "note": "kept = accepted by the reference (CPython / PEP 695 ground truth)"}
